@@ -60,6 +60,20 @@ def run(prop, tier, extra=None):
                "container_rule": "every sequence of %d add / add-with-spoofed-length / remove / serialize operations over 11 container "
                                  "kinds (TCP, IPv4, IPv6 extension headers, ICMPv6, DHCP, DHCPv6, 802.11 tagged parameters, PPPoE tags, "
                                  "RTP CSRC list, LLC frame formats, MLDv2 records), checked after every operation" % (3 if quick else 4)}
+    if prop == "C05":
+        # every other layer class libtins derives a field for: catalogue compositions read by the extended dissector (Stack2)
+        cat, g4 = vlib.tlc_generate("wire/CatGen", "CatGen.cfg" if quick else "CatGen_t.cfg", timeout=900)
+        cat = sorted({vlib.canon_hash(s): s for s in cat}.values(), key=lambda s: (s["id"], s["rep"]))
+        p2 = vlib.Pipeline(prop, "wire_cat", "wire/CatTrace", "CatTrace.cfg")
+        p2.push(cat, "cat", timeout=3000)
+        p2.confirm(v, lambda scen, kind, detail, rec=None: {"family": "wire_cat", "kind": kind, "id": scen.get("id"),
+                                                             "lenattr": (rec or {}).get("lenattr"), "next": (rec or {}).get("next"),
+                                                             "unaligned": (rec or {}).get("unaligned")})
+        st2 = {"catalogue_compositions": len({s["id"] for s in cat}), "catalogue_packets": len(cat), "catalogue_replay": p2.stats,
+               "catalogue_rule": "80 API-built compositions (51 catalogue entries + 29 extras: IPv4 first fragments with transport headers, "
+                                 "PPPoE/MPLS/EAPOL below VLAN tags, AH in IPv4/IPv6, ICMP/ICMPv6 errors with and without RFC 4884 length and "
+                                 "extension structures around the 128-octet boundary, RadioTap with FCS, loopback/SLL families, 802.3+SNAP/STP, "
+                                 "tunnels), each with %d seeded value sets, read by the TLA+ dissector Stack2 from 8 entry points" % (6 if quick else 40)}
     p.confirm(v, sig)
     rc = v.finish()
     distinct = {vlib.canon_hash(s) for s in scen if nontrivial(s)}
@@ -67,7 +81,8 @@ def run(prop, tier, extra=None):
         "states": g.distinct + p.stats["tlc_states"], "transitions": g.generated + p.stats["tlc_generated"],
         "traces_validated_against_impl": p.stats["executions"] + (p2.stats["executions"] if p2 else 0),
         "samples": [scen[len(scen) // 3]] + [{k: (x[k] if k != "bytes" else x[k][:64]) for k in x if k in ("shape", "vals", "size", "bytes", "bpf", "hs")} for x in p.samples[1:2]],
-        "evaluations": len(scen) + st2.get("container_histories", 0), "distinct_nontrivial": len(distinct) + st2.get("container_histories", 0),
+        "evaluations": len(scen) + st2.get("container_histories", 0) + st2.get("catalogue_packets", 0),
+        "distinct_nontrivial": len(distinct) + st2.get("container_histories", 0) + st2.get("catalogue_packets", 0),
         "rule": "scenario = packet shape enumerated by TLC (WireGen: link {eth, 802.1Q, QinQ} x IPv4 with 7 option shapes | IPv6 "
                 "with 9 extension-header shapes x TCP with 8 option shapes | UDP | ICMP | ICMPv6 x 9 payload classes) with field "
                 "values concretised by the seeded driver (%d value sets per shape); checked clauses: %s; non-trivial = options / "
@@ -76,8 +91,9 @@ def run(prop, tier, extra=None):
     }
     cov.update(st2)
     vlib.write_evidence(prop, tier, "exploration", cov, time.time() - t0, len(v.violations), [
-        "layers covered by the TLA+ dissector in this round: Ethernet II, 802.1Q/802.1ad, IPv4(+options), IPv6(+hop-by-hop/"
-        "routing/destination headers), TCP(+options), UDP, ICMP echo, ICMPv6 echo; other layers are not judged here",
+        "layers read by the TLA+ dissector: Ethernet II, 802.1Q/802.1ad, IPv4(+options), IPv6(+hop-by-hop/routing/destination/"
+        "fragment headers), TCP(+options), UDP, ICMP, ICMPv6 (Stack); for C05 also 802.3/LLC/SNAP/STP, SLL, loopback, RadioTap(+FCS)/"
+        "802.11 data, MPLS, PPPoE, EAPOL, ARP, AH, ESP, RFC 4884 length + extension structures (Stack2); application layers are opaque",
         "generators build representable packets only (sizes <= 65535, IPv4/TCP options <= 40 bytes, root never a bare IP)",
         "values are sampled; the structure (shapes) is enumerated",
     ])
@@ -88,6 +104,8 @@ def replay(prop, path):
     import json
     with open(path) as f:
         h = json.load(f)["replay"]["harness"]
+    if h == "wire_cat":
+        return vlib.Pipeline(prop, "wire_cat", "wire/CatTrace", "CatTrace.cfg").replay_file(path)
     if h == "containers":
         return vlib.Pipeline(prop, "containers", "wire/ContainerTrace", "ContainerTrace_%s.cfg" % prop).replay_file(path)
     return vlib.Pipeline(prop, "wire_pkt", "wire/WireTrace", "WireTrace_%s.cfg" % prop).replay_file(path)
